@@ -2,6 +2,8 @@ package props
 
 import (
 	"fmt"
+	"io"
+	"io/fs"
 	"os"
 	"os/user"
 	"path/filepath"
@@ -156,6 +158,35 @@ func (o *c09) End(x *hctx) string {
 	if accepted > 0 || len(rows) > 0 {
 		return fmt.Sprintf("an index rebuild with a different private key accepted %d headers (%d rows)", accepted, len(rows))
 	}
+	// a restore through the operations layer, with the stranger's keys over a copy of the
+	// owner's index (the index is not the secret, the keys are): every entry is refused
+	db2 := filepath.Join(side, "owner-index-copy.sqlite")
+	if err := world.CopyFile(db2, x.r.W.DB); err == nil {
+		var w2 *world.World
+		checkObs(x.f, hist.Call("construct stranger over the owner's index", func() {
+			w2, err = world.New(x.cfg, world.Opts{Dir: filepath.Join(side, "w2"), Drive: drv, DB: db2, Stranger: true, NoInit: true})
+		}), "construct")
+		if err != nil {
+			return "cannot construct: " + err.Error()
+		}
+		defer w2.Close()
+		for _, p := range x.mr.M.Paths() {
+			if p == "/" {
+				continue
+			}
+			var rerr error
+			checkObs(x.f, hist.Call("Restore "+p+" with a different key", func() {
+				rerr = w2.ReadOps.Restore(
+					func(string, fs.FileMode) (io.WriteCloser, error) { return discardWC{}, nil },
+					func(string, fs.FileMode) error { return nil },
+					p, "", true)
+			}), "restore")
+			live.S.AddInner(1)
+			if rerr == nil {
+				return fmt.Sprintf("Operations.Restore(%q) succeeded with a different private key (entry kind %s, %d bytes)", p, x.mr.M.Nodes[p].Kind, len(x.mr.M.Nodes[p].Content))
+			}
+		}
+	}
 	sc := observe.TapeScan(raw, x.cfg.RecordSize, false)
 	for _, m := range sc.Members {
 		got, err := fetchAt(x.f, w, m.Record, m.Block)
@@ -238,3 +269,8 @@ func TestC09(t *testing.T) {
 }
 
 var _ = strings.Contains
+
+type discardWC struct{}
+
+func (discardWC) Write(p []byte) (int, error) { return len(p), nil }
+func (discardWC) Close() error                { return nil }
